@@ -39,6 +39,7 @@ def run(ctx):
     _shared_r4(ctx)
     _shared_r5(ctx)
     _round6(ctx)
+    _round7(ctx)
 
 
 def _run_main(ctx):
@@ -252,3 +253,11 @@ def _round6(ctx):
                              'mio_extras::channel::Receiver::try_recv(', other_exits=('io_loop::channel_slots::ChannelSlots::get(self.chan_slots, channel_id) ~ None', 'io_loop::channel_slots::ChannelSlots::get_mut(self.chan_slots, channel_id) ~ None'))
         A.drains_until_empty(ctx, r, 'handle_channel0_readable:until-empty', 'io_loop::Inner::handle_channel0_readable', ['self', 'ch0_slot'],
                              'mio_extras::channel::Receiver::try_recv(')
+
+
+def _round7(ctx):
+    """Found by seeding round 7 (minimal one-line mutations)."""
+    from rules import arms as A
+    with ctx.rule('R01.13', 'frames handed to a channel reach the I/O thread and its poll set: blocking hand-off send; a channel opened after a back-pressure episode is polled (shared with C09, C18)', floor=4) as r:
+        A.include(ctx, r, 'c09', 'R09.3', pick=('send',))
+        A.include(ctx, r, 'c18', 'R18.2', pick=('flag',))
